@@ -36,6 +36,8 @@ fn main() {
         "reader-replay" => big_stack(move || reader::replay(&rest2)),
         "reader-respell" => big_stack(move || reader::respell(&rest2)),
         "fe-run" => big_stack(move || frontend::run(&rest2)),
+        "psm-replay" => big_stack(move || psm::replay(&rest2)),
+        "psm-emit" => big_stack(move || psm::emit(&rest2)),
         "c01-replay" => big_stack(move || c01::replay(&rest2)),
         "stack-replay" => stack::replay(rest),
         "stack-emit" => stack::emit(rest),
